@@ -23,7 +23,7 @@ class VLoop(asyncio.SelectorEventLoop):
         self._clock_resolution = 2e-10
         self.vt = 0.0
         self.steps = 0
-        self.max_steps = 400_000
+        self.max_steps = 120_000
         self.step_hook = None
 
     def time(self):
